@@ -10,8 +10,6 @@ import (
 const (
 	idE1 = "(*services/rawmessagesfilter.RawMessageFilter).HandleConsensusRawMessage"
 	idE2 = "(*services/rawmessagesfilter.RawMessageFilter).ConsumeCacheMessages"
-	idE3 = "(*services/termincommittee.TermInCommittee).moveToNextLeaderByElection"
-	idE4 = "(*leanhelix.WorkerLoop).handleUpdateState"
 )
 
 type ingest struct {
